@@ -119,7 +119,7 @@ pub fn prepare_hashes(kind: Kind, raw: &[u8], s: &PreparationSettings) -> Result
             named(vec![("round", p.round_update_transaction_hash().0)], vec![])
         }
         Kind::FlashV1 => {
-            let p = PreparedFlashTransactionV1::prepare(&RawFlashTransaction::from_slice(raw), s)?;
+            let p = PreparedFlashTransactionV1::prepare(&raw.to_vec().into(), s)?;
             named(vec![("flash", p.flash_transaction_hash().0)], vec![])
         }
         Kind::Ledger => {
@@ -1127,7 +1127,8 @@ fn check_noncanonical(shard: &mut Shard, rng: &mut Rng, kind: Kind, raw: &[u8]) 
     let Ok(orig) = prepare_hashes(kind, raw, s) else { return };
     let top = top_hash(&orig);
     // trailing bytes
-    for extra in [vec![0u8], vec![rng.u8()], rng.bytes(1 + rng.usize_below(4))] {
+    let n_extra = 1 + rng.usize_below(4);
+    for extra in [vec![0u8], vec![rng.u8()], rng.bytes(n_extra)] {
         let mut b = raw.to_vec();
         b.extend_from_slice(&extra);
         expect_rejected(shard, kind, "trailing-bytes", raw, &b, s);
